@@ -69,3 +69,12 @@ Proof.
                                               (proj1 (proj2 (proj2 (battalion_contract bz Hbz port u tc sf))))).
 Qed.
 Print Assumptions c13_valve_games_reserves_bounded.
+(* the Minecraft queries over TCP (Java, the legacy variants, the auto-detecting query), the JSON reader being any total function *)
+From GD Require Import Proofs.MinecraftNoReserve.
+Theorem c13_minecraft_no_reserve : forall json, (forall t, json t <> None) -> forall port t rs u tc sf, settings_ok t ->
+  reserves (snd (query_java json port t rs (net_init u tc sf))) = []
+  /\ reserves (snd (query_auto json port t rs (net_init u tc sf))) = []
+  /\ reserves (snd (query_legacy port t (net_init u tc sf))) = []
+  /\ (forall g, reserves (snd (query_legacy_specific g port t (net_init u tc sf))) = []).
+Proof. exact minecraft_no_reserve. Qed.
+Print Assumptions c13_minecraft_no_reserve.
